@@ -1825,7 +1825,11 @@ func (m *Machine) ParseStates(states S) S {
 	}
 
 	if dups {
-		return slicesUniq(states)
+		// keep the order, drop the unknown ones
+		return slicesFilter(slicesUniq(states), func(s string, _ int) bool {
+			_, ok := seen[s]
+			return ok
+		})
 	}
 	return slices.Collect(maps.Keys(seen))
 }
